@@ -239,6 +239,8 @@ def wf_unit(h, u):
     return z3.And(
         alloc(h, u), wf_cls(h, c), c != M.C_QUANTITY,
         is_currency(h, u) == (c == M.C_MONEY),
+        z3.Implies(z3.Not(def_none(h, u)),
+                   alloc(h, h.get("Unit._definition", u))),
         z3.Implies(linear(h, c), z3.And(
             z3.Not(equiv_none(h, u)), equiv(h, u) > 0,
             exact_tag(equiv_tag(h, u)), equiv(h, u) == scale(u))),
@@ -326,3 +328,19 @@ def num_value(v: V):
 
 def is_num(v: V) -> bool:
     return isinstance(v, (VInt, VRat))
+
+
+def wf_unit_den(h, u):
+    """the part of wf_unit that speaks about the unit's denotation as a term
+    element (needed by the product / quotient contracts only)"""
+    from .term import unit_den
+    c = qty_cls(h, u)
+    n, v = unit_den(h, u)
+    rn, rv_ = unit_den(h, ref_unit(h, c))
+    return z3.And(
+        n > 0, v != M.ZERO_VEC,
+        z3.Implies(z3.Not(def_none(h, u)),
+                   alloc(h, h.get("Unit._definition", u))),
+        # for a type with reference unit the numeric part of the denotation is
+        # the scale, and all units of the type have the type's dimension
+        z3.Implies(linear(h, c), z3.And(n == scale(u), v == rv_, rn == 1)))
